@@ -37,6 +37,9 @@ type Clause struct {
 	Expr  *Expr
 	File  string
 	Line  int
+	// `assert-at call? X ...`: checked at every matching call site, but it is not an error when the code has none
+	// (used where the clause speaks about a call the code may or may not repeat, e.g. a recomputed pure value)
+	Optional bool
 }
 
 type FuncSpec struct {
@@ -241,6 +244,10 @@ func (db *SpecDB) LoadFile(path string, pkgPath string, trusted bool) error {
 				return fail(fmt.Errorf("clause outside func"))
 			}
 			kind, r2 := splitWord(rest)
+			optional := false
+			if kind == "call?" {
+				kind, optional = "call", true
+			}
 			key := kind
 			r3 := r2
 			if kind == "call" || kind == "store" || kind == "join" {
@@ -253,7 +260,7 @@ func (db *SpecDB) LoadFile(path string, pkgPath string, trusted bool) error {
 			if err != nil {
 				return fail(err)
 			}
-			cur.Asserts = append(cur.Asserts, &Clause{Kind: "assert-at", Key: key, Label: label, Src: src, Expr: ex, File: path, Line: ln})
+			cur.Asserts = append(cur.Asserts, &Clause{Kind: "assert-at", Key: key, Label: label, Src: src, Expr: ex, File: path, Line: ln, Optional: optional})
 		case "attr":
 			if cur == nil {
 				return fail(fmt.Errorf("clause outside func"))
